@@ -349,11 +349,17 @@ def _member_part(ctx):
              and sum(1 for m in c["members"] if m["kind"] == "corrupt") <= 1]
     rng = random.Random(ctx.seed * 31337 + 3)
     ncs = ["plain", "plain", "nested", "unicode", "dotslash", "dotslash"]
+    # names a packer stores verbatim (tar -P, ZipFile.writestr("/abs/..")): absolute, //, leading backslash, drive
+    # letter.  Whether such a member comes out is DON'T-CARE, but a result must be labelled <archive path>!/<member name>
+    labelled = ["absolute", "dslash", "backslash", "drive"]
     for n, c in enumerate(cases, start=1):
-        for m in c["members"]:
+        for mi, m in enumerate(c["members"]):
             if m["nc"] == "dup":
                 continue                            # keeps the name of the member before it
-            if m["kind"] in ("doc", "emptyFile", "corrupt", "dir", "nested", "unsup"):
+            followed = mi + 1 < len(c["members"]) and c["members"][mi + 1]["nc"] == "dup"
+            if m["kind"] == "doc" and not followed and rng.random() < (0.25 if c["fmt"] != "7z" else 0.08):
+                m["nc"] = rng.choice(labelled)
+            elif m["kind"] in ("doc", "emptyFile", "corrupt", "dir", "nested", "unsup"):
                 m["nc"] = rng.choice(ncs)          # benign name classes only: the oracle is the same for all of them
             elif m["kind"] == "hidden":
                 m["nc"] = rng.choice(["plain", "nested"])   # dot-file at the root / below a folder
